@@ -14,7 +14,9 @@ them in place, so every use builds its own instance):
   {'k': 'object', 'cls': name of a pgverif.models class}
   {'k': 'union', 'cands': [desc...]}
 plus the common flags 'none' (noneable), 'default' (['v', plain value], absent
-= no default) and 'frozen'.
+= no default) and 'frozen', and for List/Tuple/Dict/Object/Any the optional
+'tf' = name of a harness-defined user transform (`TRANSFORMS`; every one is
+idempotent and records in `TF_EVENTS` whether it changed or refused its input).
 
 `candidates(rng, specs)` derives values from the *public parameters* of live
 specs: every bound and bound +-1, every size bound +-1, every enum member and a
@@ -351,6 +353,8 @@ def build(d):
   kw = {}
   if 'default' in d:
     kw['default'] = copy.deepcopy(d['default'][1])
+  if d.get('tf') and k in TF_KINDS:
+    kw['transform'] = TRANSFORMS[d['tf']]
   if k == 'int':
     s = T.Int(min_value=d['min'], max_value=d['max'], **kw)
   elif k == 'float':
@@ -433,6 +437,8 @@ def show(d):
     body = 'str' + (f"/{d['regex']}/" if d.get('regex') else '')
   else:
     body = k
+  if d.get('tf'):
+    body += '~' + d['tf']
   if d.get('none'):
     body += '?'
   if 'default' in d:
@@ -462,8 +468,19 @@ def accepts(spec, v, allow_partial=False):
 # -- parameter-derived candidate values ------------------------------------------------
 
 def _objects():
-  return [M.Inner(), M.Inner(p=5, q='s'), M.Typed(), M.TypedSub(extra=2),
-          M.Any2(x=1), M.Leaf(1)]
+  return [f() for f in _OBJECT_FACTORIES]
+
+
+class _Later:
+  """Placeholder for an object of `_objects()` that is built only if used."""
+
+  def __init__(self, factory):
+    self.factory = factory
+
+
+_OBJECT_FACTORIES = [
+    lambda: M.Inner(), lambda: M.Inner(p=5, q='s'), lambda: M.Typed(),
+    lambda: M.TypedSub(extra=2), lambda: M.Any2(x=1), lambda: M.Leaf(1)]
 
 
 UNIVERSAL = [None, True, False, 0, 1, -1, 2, 7, 0.5, -0.0, 2.0, 'a', 'ab', '', 'zz',
@@ -606,10 +623,13 @@ def candidates(rng, specs, limit=40):
   for s in specs:
     derived += own_values(rng, s, 0)
   seen, out = set(), []
-  uni = list(UNIVERSAL) + _objects()
+  # Same values in the same order as `UNIVERSAL + _objects()` shuffled; the
+  # (expensive) objects are built only when they make it into the selection.
+  uni = list(UNIVERSAL) + [_Later(f) for f in _OBJECT_FACTORIES]
   rng.shuffle(uni)
   n_uni = max(6, limit // 4)
-  for v in derived + uni[:n_uni]:
+  picked = [v.factory() if isinstance(v, _Later) else v for v in uni[:n_uni]]
+  for v in derived + picked:
     key = (type(v).__name__, repr(v))
     if key in seen:
       continue
@@ -753,3 +773,265 @@ def why_rejected(spec, v, depth=0):
         return f'Union.converted-candidate-rejects/{r}' if r else None
     return 'Union.no-candidate'
   return None
+
+
+# -- user transforms (round 3) ------------------------------------------------------
+#
+# A user transform is arbitrary code, so what a spec with a transform accepts is
+# not described by its parameters. The harness therefore uses transforms that
+# are idempotent (apply stays idempotent) and that *record* whether they changed
+# or refused their input: a value is judged in the pair laws only when every
+# transform that ran returned its input unchanged (same type, equal), i.e. when
+# the transforms were invisible and the spec must behave like the same spec
+# without them.
+
+TF_EVENTS = []
+TF_KINDS = ('list', 'tuple', 'vtuple', 'dict', 'object', 'any')
+
+
+def _tf_note(x, out):
+  if type(out) is not type(x):
+    TF_EVENTS.append('changed')
+    return out
+  try:
+    if not out == x:
+      TF_EVENTS.append('changed')
+  except Exception:  # pylint: disable=broad-except
+    TF_EVENTS.append('changed')
+  return out
+
+
+def tf_ident(x):
+  return x
+
+
+def tf_list(x):
+  """Converting transform: any iterable -> list."""
+  try:
+    out = list(x)
+  except Exception:
+    TF_EVENTS.append('raised')
+    raise
+  return _tf_note(x, out)
+
+
+def tf_tuple(x):
+  try:
+    out = tuple(x)
+  except Exception:
+    TF_EVENTS.append('raised')
+    raise
+  return _tf_note(x, out)
+
+
+def tf_dict(x):
+  try:
+    out = dict(x)
+  except Exception:
+    TF_EVENTS.append('raised')
+    raise
+  return _tf_note(x, out)
+
+
+def tf_sorted(x):
+  """Normalising transform: list -> sorted list."""
+  try:
+    out = sorted(x) if isinstance(x, list) else x
+  except Exception:
+    TF_EVENTS.append('raised')
+    raise
+  return _tf_note(x, out)
+
+
+def tf_short(x):
+  """Validating transform: refuses containers longer than 4."""
+  try:
+    n = len(x)
+  except Exception:  # pylint: disable=broad-except
+    n = 0
+  if n > 4:
+    TF_EVENTS.append('raised')
+    raise ValueError('too long')
+  return x
+
+
+TRANSFORMS = {'ident': tf_ident, 'list': tf_list, 'tuple': tf_tuple, 'dict': tf_dict,
+              'sorted': tf_sorted, 'short': tf_short}
+TF_BY_KIND = {
+    'list': ['ident', 'list', 'list', 'sorted', 'short'],
+    'vtuple': ['ident', 'tuple', 'tuple', 'short'],
+    'tuple': ['ident', 'tuple', 'tuple'],
+    'dict': ['ident', 'dict', 'dict', 'short'],
+    'object': ['ident'],
+    'any': ['ident'],
+}
+
+
+def accepts_tracked(spec, v, allow_partial=False):
+  """`accepts` + whether a harness transform changed or refused a value."""
+  del TF_EVENTS[:]
+  ok, r = accepts(spec, v, allow_partial)
+  visible = bool(TF_EVENTS)
+  del TF_EVENTS[:]
+  return ok, r, visible
+
+
+def has_transform(d):
+  return bool(d.get('tf')) or any(has_transform(c) for c in children(d))
+
+
+def strip_transforms(d):
+  """A deep copy of the description without any transform."""
+  d = copy.deepcopy(d)
+  def walk(x):
+    x.pop('tf', None)
+    for c in children(x):
+      walk(c)
+  walk(d)
+  return d
+
+
+def build_quiet(d):
+  """True when `d` builds and no transform changed or refused a default while
+  it was built (the transform-free twin then holds the same defaults)."""
+  del TF_EVENTS[:]
+  try:
+    build(d)
+  except Exception:  # pylint: disable=broad-except
+    return False
+  finally:
+    seen = bool(TF_EVENTS)
+    del TF_EVENTS[:]
+  return not seen
+
+
+def settle_transforms(d):
+  """`d`, or its transform-free twin when a transform touches a default."""
+  return d if build_quiet(d) else strip_transforms(d)
+
+
+def add_transforms(rng, d, p=0.5):
+  """A deep copy of `d` with user transforms on some container nodes (still
+  buildable; a transform that changes or refuses a default is dropped)."""
+  d = copy.deepcopy(d)
+  def walk(x):
+    for c in children(x):
+      walk(c)
+    if x['k'] in TF_BY_KIND and rng.random() < p:
+      x['tf'] = rng.choice(TF_BY_KIND[x['k']])
+      if not build_quiet(x):
+        x.pop('tf', None)
+  walk(d)
+  return settle_transforms(d)
+
+
+# -- defaults that hold mutable containers (round 3) -------------------------------------
+
+def holds_mutable(v):
+  if isinstance(v, (list, dict)):
+    return True
+  if isinstance(v, tuple):
+    return any(holds_mutable(x) for x in v)
+  return False
+
+
+def _gen_container(rng, depth):
+  """A container description (no flags) that nests containers: tuples of
+  lists/dicts, lists of tuples, dict fields of those, ..."""
+  prim = lambda: gen_spec(rng, 3, 3, PRIM_KINDS)
+  if depth < 2 and rng.random() < 0.65:
+    inner = _gen_container(rng, depth + 1)
+  else:
+    inner = prim()
+  k = rng.choice(['tuple', 'tuple', 'vtuple', 'list', 'dict'])
+  if k == 'tuple':
+    els = [inner] + [prim() for _ in range(rng.randint(0, 2))]
+    rng.shuffle(els)
+    return {'k': 'tuple', 'els': els}
+  if k in ('vtuple', 'list'):
+    return {'k': k, 'el': inner, 'min': None, 'max': rng.choice([None, None, 3])}
+  fields = [['a', inner]]
+  if rng.random() < 0.5:
+    fields.append(['b', prim()])
+  return {'k': 'dict', 'fields': fields}
+
+
+def gen_defaulted(rng):
+  """A description with a default; where the shape allows, the default holds a
+  mutable container (possibly inside tuples). Flags noneable/frozen at random
+  on every level."""
+  for _ in range(30):
+    d = _gen_container(rng, 0)
+    def flags(x, top):
+      for c in children(x):
+        flags(c, False)
+      if not top and 'default' not in x and x['k'] in ('list', 'tuple', 'vtuple', 'dict'):
+        if rng.random() < 0.4:
+          _choose_default(rng, x, 0.2)
+    flags(d, True)
+    r = rng.random()
+    if r < 0.12:
+      try:
+        s = build(d)
+        ok = [v for v in own_values(rng, s, 0) if _plain(v) and holds_mutable(v) and accepts(s, v)[0]]
+      except Exception:  # pylint: disable=broad-except
+        ok = []
+      if ok:
+        d = {'k': 'any', 'default': ['v', copy.deepcopy(rng.choice(ok))]}
+    elif r < 0.24:
+      other = gen_spec(rng, 3, 3, ['int', 'str', 'bool'])
+      other.pop('default', None)
+      other.pop('frozen', None)
+      d = {'k': 'union', 'cands': [d, other] if rng.random() < 0.5 else [other, d]}
+    if 'default' not in d and not _choose_default(rng, d, 0.15):
+      continue
+    if rng.random() < 0.15 and d['k'] != 'any':
+      d['none'] = True
+    try:
+      build(d)
+      return d
+    except Exception:  # pylint: disable=broad-except
+      continue
+  return {'k': 'list', 'el': {'k': 'int', 'min': None, 'max': None}, 'min': None,
+          'max': None, 'default': ['v', [1, 2]]}
+
+
+def _choose_default(rng, d, p_frozen):
+  """Gives `d` a default (preferring values that hold a mutable container)."""
+  try:
+    s = build(d)
+    ok = [v for v in own_values(rng, s, 0)
+          if v is not None and _plain(v) and accepts(s, v)[0]]
+  except Exception:  # pylint: disable=broad-except
+    return False
+  good = [v for v in ok if holds_mutable(v)] or ok
+  if not good:
+    return False
+  d['default'] = ['v', copy.deepcopy(rng.choice(good))]
+  if rng.random() < p_frozen:
+    d['frozen'] = True
+  return True
+
+
+def widen(d):
+  """A wider spec of the same shape: Int -> Float (so applying it converts
+  elements in place), no bounds, sizes, defaults, frozen flags or transforms;
+  everything noneable."""
+  d = copy.deepcopy(d)
+  def walk(x):
+    for f in ('default', 'frozen', 'tf'):
+      x.pop(f, None)
+    k = x['k']
+    if k in ('int', 'float'):
+      x.update(k='float', min=None, max=None)
+    elif k == 'enum':
+      x.clear()
+      x.update(k='any')
+    elif k in ('list', 'vtuple'):
+      x.update(min=None, max=None)
+    if x['k'] != 'any':
+      x['none'] = True
+    for c in children(x):
+      walk(c)
+  walk(d)
+  return d
